@@ -54,3 +54,19 @@ TEXT["C16"] = dict(
     note="Trusts url.URL.String and reflect.DeepEqual.",
     technique="runtime two-run (pairwise) comparison monitor",
 )
+
+TEXT["C07"] = dict(
+    level="Reference field-parser runtime monitoring over millions of generated lines (exhaustive lead x address x separator x name x trail products for 0..2 names, sampled 3..5 names, insertions at every byte position, alphabet sweeps, mutants): acceptance, address, names, error class and retained names are compared with a FieldsFunc-based reference, and every accepted record is marshalled and re-parsed. Exploration.",
+    note="Trusts netip.ParseAddr and golibs' ValidateDomainName (C03) as the field grammars named by the statement.",
+    technique="runtime reference-model monitor plus marshal/re-parse round trip",
+)
+TEXT["C08"] = dict(
+    level="Event-log and shadow-model runtime monitoring: the ordered log of Add/HandleInvalid calls made by Parse is compared with a reference (line splitter + C07 reference) for each input under six reader fragmentations incl. injected read errors, four buffer sizes, named/unnamed sources and both destination kinds; DefaultStorage is compared with a two-index model after every Add of every Add-sequence up to depth 3/4 over 45 records plus long random sequences. Exploration.",
+    note="The reader scripts stay inside the io.Reader contract; at most 3 consecutive (0,nil) reads (100 is bufio's own abort).",
+    technique="runtime event-log checker over scripted reader fragmentations plus shadow-model monitor of the storage",
+)
+TEXT["C12"] = dict(
+    level="Byte-level reference and membership runtime monitoring: conversions of 53 net.IP shapes (nil, every length 0..20, 4-byte/16-byte/mapped forms) x 477 masks (canonical, every single-hole, stray-one, nil, wrong length) x 3 functions, with subnet membership compared on boundary and bit-flip probe addresses, TCP/UDP/IP/Unix/custom net.Addr kinds with zones and out-of-range ports, and every slice up to length 5/6 over a 12-address pool sorted with both comparators. Exploration.",
+    note="Trusts net.IPNet.Contains, netip.Prefix.Contains and netip.Addr.Compare. IPv4-mapped 16-byte probe addresses are excluded from the IPv6 membership comparison because package net and package netip disagree about them independently of golibs.",
+    technique="runtime differential monitor (byte-level reference, membership probes, reference sort order)",
+)
